@@ -82,7 +82,9 @@ package fscache
 
 //@ func fragmentFileName
 //@   property C14 C15
-//@   ensures wfName(result)                                                                # name: directories-marked-file-unmarked   props: C14
+//@   ensures pathLen(result) >= 1                                                          # name: at-least-one-component   props: C14
+//@   ensures forall j int :: 0 <= j && j < pathLen(result)-1 ==> isDirName(pathPart(result, j))   # name: directories-are-marked   props: C14
+//@   ensures !isDirName(pathPart(result, pathLen(result)-1))                               # name: file-is-unmarked   props: C14
 //@   ensures !isTempName(result)                                                           # name: never-a-temporary-name   props: C14 C15
 //@   loop 0 invariant 0 <= i && len(encoded) - i >= 1 && b64Text(encoded)
 //@   loop 0 invariant forall j int :: 0 <= j && j < len(parts) ==> isDirName(parts[j]) && sepFree(parts[j])
